@@ -960,7 +960,7 @@ class RejectGen(Gen):
         """-> (op, label) or None; preparation ops are executed on the way"""
         r = self.rng
         kind = r.choice(["new-dup", "new-twin", "new-parent", "new-registry", "new-id",
-                         "attach-parent", "attach-registry", "attach-rootid",
+                         "attach-parent", "attach-registry", "attach-rootid", "attach-stale-cid",
                          "replace-bad", "replace-dup", "replace-parent", "replace-registry",
                          "rwith-subtree", "rwith-none", "rwith-type", "rwith-attach-parent", "rwith-attach-registry",
                          "rwith-ancestor", "rwith-ancestor", "rwith-self", "rwith-falsy"]
@@ -1027,6 +1027,27 @@ class RejectGen(Gen):
             if t is None:
                 return None
             return Op(self.uid(), "attach", self.name(t)), label
+        if kind == "attach-stale-cid":
+            # a detached chain top -> holder above a still attached subtree that was edited meanwhile (holder's cached
+            # content id is stale), next to a child whose id is taken by another object: attach(top) is rejected AFTER the
+            # validation walk has passed holder -- nothing, holder's content id included, may have changed
+            lf = self.mk("LLeaf", v=r.randint(0, 3))
+            mid = self.mk("LUn", {"arg": self.name(lf)}) if lf is not None else None
+            holder = self.mk("LUn", {"arg": self.name(mid)}) if mid is not None else None
+            other = self.mk("LLeaf", v=r.randint(4, 7))
+            if holder is None or other is None:
+                return None
+            items = [self.name(holder), self.name(other)] if where != "first" else [self.name(other), self.name(holder)]
+            top = self.mk("LTup", {"items": items})
+            if top is None:
+                return None
+            self.run(Op(self.uid(), "detach", self.name(top), {"only_self": True}))
+            self.run(Op(self.uid(), "detach", self.name(holder), {"only_self": True}))
+            self.run(Op(self.uid(), "replace", self.name(lf), {"changes": {"v": lf.v + 4}, "bad": []}))
+            self.run(Op(self.uid(), "replace", self.name(other), {"changes": {"v": other.v + 4}, "bad": []}))
+            if not (other.detached and AwareASTNode.get_any(other.id) is not None):
+                return None
+            return Op(self.uid(), "attach", self.name(top)), label
         if kind == "attach-rootid":
             p = self.poison_registry()
             if p is None:
